@@ -40,6 +40,41 @@ theorem best_fold (rs : List (α × β)) : ∀ (acc : α × Option β),
           · rw [h3, s3]; exact s4
       · right; exact ⟨b, hb1, List.mem_cons_of_mem _ hb2, lt_of_le_of_lt s1 hb3⟩
 
+/-- as soon as one realisation ends above the start value, the stored optimum the fold started with is gone -/
+theorem fold_forgets (rs : List (α × β)) : ∀ (a : α) (s s' : Option β), (∃ r ∈ rs, a < r.1) →
+    rs.foldl bestStep (a, s) = rs.foldl bestStep (a, s') := by
+  induction rs with
+  | nil => intro a s s' h; obtain ⟨r, hr, _⟩ := h; simp at hr
+  | cons r rs ih =>
+    intro a s s' h
+    simp only [List.foldl_cons]
+    by_cases hlt : a < r.1
+    · have e1 : bestStep (a, s) r = (r.1, some r.2) := by unfold bestStep; simp [hlt]
+      have e2 : bestStep (a, s') r = (r.1, some r.2) := by unfold bestStep; simp [hlt]
+      rw [e1, e2]
+    · have e1 : bestStep (a, s) r = (a, s) := by unfold bestStep; simp [hlt]
+      have e2 : bestStep (a, s') r = (a, s') := by unfold bestStep; simp [hlt]
+      rw [e1, e2]
+      apply ih
+      obtain ⟨x, hx, hxlt⟩ := h
+      rcases List.mem_cons.mp hx with rfl | hx
+      · exact absurd hxlt hlt
+      · exact ⟨x, hx, hxlt⟩
+
+/-- no realisation above the accumulator: the fold returns the accumulator -/
+theorem fold_keeps (rs : List (α × β)) : ∀ (o : α × Option β), (∀ r ∈ rs, r.1 ≤ o.1) →
+    rs.foldl bestStep o = o := by
+  induction rs with
+  | nil => intro o _; rfl
+  | cons r rs ih =>
+    intro o h
+    simp only [List.foldl_cons]
+    have e : bestStep o r = o := by
+      unfold bestStep
+      simp [not_lt.mpr (h r (by simp))]
+    rw [e]
+    exact ih o (fun x hx => h x (List.mem_cons_of_mem _ hx))
+
 end best
 
 section conv
